@@ -8,6 +8,7 @@ verus! {
 pub struct Keyspace { pub id: InternalKeyspaceId }
 pub struct Item { pub keyspace: Keyspace, pub key: UserKey, pub value: UserValue, pub value_type: ValueType }
 //@include spec/item_ops.rs
+pub type BatchItem = Item;
 //@include prelude/world.rs
 //@include prelude/paths.rs
 //@path std::sync::atomic::Ordering => atomic_shim::Ordering
